@@ -457,6 +457,14 @@ Theorem C15_gen_any_key_is_type_blind :
 Proof. exact gen_any_key_is_type_blind. Qed.
 Print Assumptions C15_gen_any_key_is_type_blind.
 
+Theorem C15_gen_mixed_compare : forall ms, check_msgs_sh gen_shape ms = check_msgs ms.
+Proof. exact gen_mixed_compare. Qed.
+Print Assumptions C15_gen_mixed_compare.
+
+Theorem C15_gen_mixed_compare_fact : sh_mixed_compare gen_shape = CmpTypeURL /\ sh_mixed_fold gen_shape = true.
+Proof. exact gen_mixed_compare_fact. Qed.
+Print Assumptions C15_gen_mixed_compare_fact.
+
 Theorem C15_shadowed_err_matters :
   let sh := with_exec gen_shape false 0 0 1 true true in
   (ext (fst (exec_outcome_sh sh s_any [m_ok; m_bad])), snd (exec_outcome_sh sh s_any [m_ok; m_bad])) = ([7], SPassed) /\
